@@ -85,6 +85,16 @@ func (n *Nat) Lift() *Int {
 	return (*Int)(new(saferith.Int).SetNat((*saferith.Nat)(n)))
 }
 
+// unsharedIfTruncated returns x, or a copy of x if 0 <= capacity < x.AnnouncedLen().
+// saferith truncates an operand to the requested capacity by masking the operand's own limbs in place,
+// which would otherwise change the caller's value.
+func unsharedIfTruncated(x *Nat, capacity int) *Nat {
+	if capacity >= 0 && capacity < x.AnnouncedLen() {
+		return x.Clone()
+	}
+	return x
+}
+
 // Add sets n = lhs + rhs.
 func (n *Nat) Add(lhs, rhs *Nat) {
 	n.AddCap(lhs, rhs, -1)
@@ -93,12 +103,14 @@ func (n *Nat) Add(lhs, rhs *Nat) {
 // AddCap sets n = lhs + rhs modulo 2^capacity with capacity capacity.
 // if capacity < 0, capacity will be max(lhs.AnnouncedLen(), rhs.AnnouncedLen()) + 1.
 func (n *Nat) AddCap(lhs, rhs *Nat, capacity int) {
+	lhs, rhs = unsharedIfTruncated(lhs, capacity), unsharedIfTruncated(rhs, capacity)
 	(*saferith.Nat)(n).Add((*saferith.Nat)(lhs), (*saferith.Nat)(rhs), capacity)
 }
 
 // SubCap sets n = lhs - rhs modulo 2^capacity.
 // if capacity < 0, capacity will be max(lhs.AnnouncedLen(), rhs.AnnouncedLen()).
 func (n *Nat) SubCap(lhs, rhs *Nat, capacity int) {
+	lhs, rhs = unsharedIfTruncated(lhs, capacity), unsharedIfTruncated(rhs, capacity)
 	(*saferith.Nat)(n).Sub((*saferith.Nat)(lhs), (*saferith.Nat)(rhs), capacity)
 }
 
@@ -110,6 +122,7 @@ func (n *Nat) Mul(lhs, rhs *Nat) {
 // MulCap sets n = lhs * rhs modulo 2^capacity.
 // if capacity < 0, capacity will be lhs.AnnouncedLen() + rhs.AnnouncedLen().
 func (n *Nat) MulCap(lhs, rhs *Nat, capacity int) {
+	lhs, rhs = unsharedIfTruncated(lhs, capacity), unsharedIfTruncated(rhs, capacity)
 	(*saferith.Nat)(n).Mul((*saferith.Nat)(lhs), (*saferith.Nat)(rhs), capacity)
 }
 
